@@ -412,6 +412,11 @@ Definition alloc (w : world) (rows : list node) : world * N :=
            ((w_next w, rows) :: w_heap w) (N.succ (w_next w)),
    w_next w).
 
+(* (re)writing a file: the newest content of a path counts *)
+Definition write_file (w : world) (p : name) (f : lutfile) : world :=
+  mkWorld ((p, f) :: w_files w) (w_internal w) (w_ext w) (w_heap w)
+          (w_next w).
+
 (* get_lut_path: an existing path wins, then built-in identifiers, then
    registered ones *)
 Definition get_lut_path (w : world) (x : name) : res name :=
@@ -533,13 +538,19 @@ Section EmodWorld.
         end
     end.
 
+  (* what happens between calls: besides get_emodulus and register_lut, the
+     user may (re)write a LUT file at a path and may modify an (array, meta)
+     table of his own in place *)
   Inductive op :=
   | OCall (d : lutdata) (S : setup) (m : medium) (evs : list event)
-  | ORegister (path : name) (ident : option name).
+  | ORegister (path : name) (ident : option name)
+  | OWriteFile (path : name) (f : lutfile)
+  | OMutate (a : N) (rows : list node).
 
   Inductive outcome :=
   | OutCall (r : res (list (option Q)))
-  | OutReg (r : res unit).
+  | OutReg (r : res unit)
+  | OutUnit.
 
   Definition step (w : world) (o : op) : world * outcome :=
     match o with
@@ -547,6 +558,8 @@ Section EmodWorld.
         let (w', r) := get_emodulus_w w d St m evs in (w', OutCall r)
     | ORegister p i =>
         let (w', r) := register_lut w p i in (w', OutReg r)
+    | OWriteFile p f => (write_file w p f, OutUnit)
+    | OMutate a rows => (hwrite w a rows, OutUnit)
     end.
 
   Fixpoint run_ops (w : world) (ops : list op) : world * list outcome :=
@@ -565,14 +578,28 @@ Definition err_code (e : err) : Z :=
   match e with EValueError => 1 | EAssertionError => 2 | EKeyError => 3
           | EFileNotFound => 4 end%Z.
 
-Fixpoint run_load_ops (w : world) (ops : list (Z * Z * Z)) : list Z :=
+(* content tag of a loaded table: numerator of the first node's modulus *)
+Definition content_tag (w : world) (a : N) : Z :=
+  match hread w a with
+  | n :: _ => Qnum (Qred (ne n))
+  | [] => (-1)%Z
+  end.
+
+Fixpoint run_load_ops (w : world) (alts : list lutfile)
+         (ops : list (Z * Z * Z)) : list Z :=
   match ops with
   | [] => []
   | (tag, x, y) :: r =>
       if (tag =? 0)%Z then
         let (w', o) := register_lut w x (if (y <? 0)%Z then None else Some y) in
         (match o with Ok _ => 0 | Err e => err_code e end)%Z
-          :: run_load_ops w' r
+          :: run_load_ops w' alts r
+      else if (tag =? 2)%Z then
+        (* rewrite the file at path x with the y-th alternative content *)
+        match nth_error alts (Z.to_nat y) with
+        | Some f => run_load_ops (write_file w x f) alts r
+        | None => run_load_ops w alts r
+        end
       else
         let out :=
             match get_lut_path w x with
@@ -580,13 +607,13 @@ Fixpoint run_load_ops (w : world) (ops : list (Z * Z * Z)) : list Z :=
             | Ok p =>
                 match load_lut w (DName x) with
                 | (_, Err e) => [err_code e; p]
-                | (_, Ok (_, mt)) =>
+                | (w1, Ok (a, mt)) =>
                     match select_feat mt with
-                    | Ok Area => [0; p; 1]
-                    | Ok Volume => [0; p; 3]
+                    | Ok Area => [0; p; 1; content_tag w1 a]
+                    | Ok Volume => [0; p; 3; content_tag w1 a]
                     | Err e => [err_code e; p]
                     end
                 end
             end%Z in
-        out ++ run_load_ops w r
+        out ++ run_load_ops w alts r
   end.
